@@ -342,7 +342,13 @@ class Interp(Engine):
                     raise Undecided('object item store inside a symbolic loop')
                 return fn(self, base, idx, v)
         if isinstance(base, SV) and base.kind == 'val':
-            raise Undecided('store into opaque array (would need aliasing model)')
+            if base.frozen or self.loops or (base.app is not None and base.app[0].startswith('attr.')):
+                raise Undecided('store into an opaque array that may be shared with the caller (would need an aliasing model)')
+            # in-place update of a locally created array: every alias (the same SV object) sees the new contents
+            old = SV(base.z, 'val', app=base.app, tag=base.tag, shape=base.shape)
+            new = self.app('setitem', [old, idx, v], tag=base.tag)
+            base.z, base.app = new.z, new.app
+            return
         raise Undecided(f'store into {base!r}')
 
     def norm_index(self, idx, rank):
@@ -876,19 +882,19 @@ class Interp(Engine):
         return self.eval(e.orelse, env)
 
     def ex_BoolOp(self, e, env):
+        # python semantics: `a or b` / `a and b` return one of the operand VALUES
+        v = None
         if isinstance(e.op, ast.And):
-            v = True
             for x in e.values:
                 v = self.eval(x, env)
                 if not self.branch(v):
-                    return v if not isinstance(v, (SV, CaseV)) else False
-            return v if not isinstance(v, (SV, CaseV)) else True
-        v = False
+                    return v if not (isinstance(v, SV) and v.kind == 'bool') else False
+            return v if not (isinstance(v, SV) and v.kind == 'bool') else True
         for x in e.values:
             v = self.eval(x, env)
             if self.branch(v):
-                return v if not isinstance(v, (SV, CaseV)) else True
-        return v if not isinstance(v, (SV, CaseV)) else False
+                return v if not (isinstance(v, SV) and v.kind == 'bool') else True
+        return v if not (isinstance(v, SV) and v.kind == 'bool') else False
 
     def ex_UnaryOp(self, e, env):
         v = self.eval(e.operand, env)
